@@ -269,11 +269,9 @@ func (m *matchModel) solveRoles() {
 						if cm.IsInvoke() {
 							args = append([]ssa.Value{cm.Value}, args...)
 						}
-						if _, isPass := m.pass[sc]; !isPass {
-							for i, a := range args {
-								if i < len(sc.Params) {
-									up(sc.Params[i], a)
-								}
+						for i, a := range args {
+							if i < len(sc.Params) {
+								up(sc.Params[i], a)
 							}
 						}
 						if idx, isPass := m.pass[sc]; isPass {
